@@ -48,10 +48,32 @@ func c46aFoldStr(s string) string {
 	return string(b)
 }
 
-// c46aDomainMatch: pattern kind rank (4 exact, 3 suffix, 2 prefix, 1
-// universal) and whether host matches the pattern.
-func c46aDomainMatch(d, host string, fold bool) (rank int, ok bool) {
-	if fold {
+// c46aReading fixes the two points the property sentence leaves open: whether
+// domain patterns are compared case-sensitively and whether the '*' of a
+// suffix/prefix pattern may stand for the empty string. The real code must be
+// right under ONE reading for every case of the run.
+type c46aReading struct {
+	Fold      bool `json:"ascii_case_insensitive"`
+	EmptyWild bool `json:"wildcard_may_be_empty"`
+}
+
+var c46aReadings = [4]c46aReading{{false, true}, {false, false}, {true, true}, {true, false}}
+
+func (rd c46aReading) String() string {
+	s := "case-sensitive"
+	if rd.Fold {
+		s = "ASCII-case-insensitive"
+	}
+	if rd.EmptyWild {
+		return s + ", '*' may be empty"
+	}
+	return s + ", '*' is non-empty"
+}
+
+// c46aDomainMatch: pattern type rank (4 exact, 3 suffix "*x", 2 prefix "x*", 1
+// universe "*") and whether host matches the pattern under reading rd.
+func c46aDomainMatch(d, host string, rd c46aReading) (rank int, ok bool) {
+	if rd.Fold {
 		d, host = c46aFoldStr(d), c46aFoldStr(host)
 	}
 	switch {
@@ -59,48 +81,68 @@ func c46aDomainMatch(d, host string, fold bool) (rank int, ok bool) {
 		return 1, true
 	case len(d) > 0 && d[0] == '*':
 		suf := d[1:]
-		return 3, len(host) >= len(suf) && host[len(host)-len(suf):] == suf
+		ok = len(host) >= len(suf) && host[len(host)-len(suf):] == suf
+		return 3, ok && (rd.EmptyWild || len(host) > len(suf))
 	case len(d) > 0 && d[len(d)-1] == '*':
 		pre := d[:len(d)-1]
-		return 2, len(host) >= len(pre) && host[:len(pre)] == pre
+		ok = len(host) >= len(pre) && host[:len(pre)] == pre
+		return 2, ok && (rd.EmptyWild || len(host) > len(pre))
 	default:
 		return 4, d == host
 	}
 }
 
-// c46aRefBest: brute force - list every matching (vhost, domain), order by
-// (kind rank desc, pattern length desc, listing order asc), take the first.
-func c46aRefBest(host string, vhs [][]string, fold bool) int {
-	type cand struct{ rank, plen, order, vh int }
-	var cs []cand
+// c46aCand is one matching (virtual host, domain) pair.
+type c46aCand struct{ rank, plen, order, vh int }
+
+// c46aPreferred is the sentence: exact > suffix > prefix > wildcard; within a
+// type the longer pattern first; on a full tie the first listed.
+func c46aPreferred(a, b c46aCand) bool {
+	if a.rank != b.rank {
+		return a.rank > b.rank
+	}
+	if a.plen != b.plen {
+		return a.plen > b.plen
+	}
+	return a.order < b.order
+}
+
+// c46aRefBest lists every matching (vhost, domain) pair and returns the vhost of
+// the most preferred one (-1: none), the number of matching pairs, and whether
+// the winner's pattern is shorter than a matching pattern of a worse type.
+func c46aRefBest(host string, vhs [][]string, rd c46aReading) (best, ncand int, typeBeatsLength bool) {
+	var cs []c46aCand
 	order := 0
 	for i, doms := range vhs {
 		for _, d := range doms {
-			if rank, ok := c46aDomainMatch(d, host, fold); ok {
-				cs = append(cs, cand{rank, len(d), order, i})
+			if rank, ok := c46aDomainMatch(d, host, rd); ok {
+				cs = append(cs, c46aCand{rank, len(d), order, i})
 			}
 			order++
 		}
 	}
 	if len(cs) == 0 {
-		return -1
+		return -1, 0, false
 	}
-	sort.Slice(cs, func(a, b int) bool {
-		if cs[a].rank != cs[b].rank {
-			return cs[a].rank > cs[b].rank
+	w := cs[0]
+	for _, c := range cs[1:] {
+		if c46aPreferred(c, w) {
+			w = c
 		}
-		if cs[a].plen != cs[b].plen {
-			return cs[a].plen > cs[b].plen
+	}
+	for _, c := range cs {
+		if c.rank < w.rank && c.plen > w.plen {
+			typeBeatsLength = true
 		}
-		return cs[a].order < cs[b].order
-	})
-	return cs[0].vh
+	}
+	return w.vh, len(cs), typeBeatsLength
 }
 
 type c46aVhostCase struct {
 	Kind      string     `json:"kind"` // "vhost"
 	Authority string     `json:"authority"`
 	VHosts    [][]string `json:"vhosts"`
+	Reading   int        `json:"reading"` // index into c46aReadings the case was judged under
 }
 
 // c46aVhostEval runs the real function; returns index of the chosen vhost (-1
@@ -123,83 +165,101 @@ func c46aVhostEval(host string, objs []*VirtualHost) (idx int) {
 	return -3
 }
 
-func c46aVhostSize(c c46aVhostCase) int {
+func c46aVhostSize(vhs [][]string) int {
 	n := 0
-	for _, v := range c.VHosts {
+	for _, v := range vhs {
 		n += 1 + len(v)
 	}
 	return n
 }
 
-func c46aVhostOrd(c c46aVhostCase) string {
-	return fmt.Sprintf("%03d|%q|%q", c46aVhostSize(c), c.Authority, c.VHosts)
+type c46aVhostFail struct {
+	c    c46aVhostCase
+	desc string
+	size int
+	ord  string
 }
 
-// c46aVhostTrim keeps the 3 smallest failures of st, sorted.
-func c46aVhostTrim(st *c46aVhostStats) {
-	idx := make([]int, len(st.fails))
-	for i := range idx {
-		idx[i] = i
+// c46aVhostKeep inserts f into the (<=3, sorted) list of smallest failures.
+func c46aVhostKeep(l []c46aVhostFail, f c46aVhostFail) []c46aVhostFail {
+	for _, x := range l {
+		if x.ord == f.ord {
+			return l
+		}
 	}
-	sort.Slice(idx, func(a, b int) bool { return c46aVhostOrd(st.fails[idx[a]]) < c46aVhostOrd(st.fails[idx[b]]) })
-	if len(idx) > 3 {
-		idx = idx[:3]
+	l = append(l, f)
+	sort.Slice(l, func(i, j int) bool { return l[i].ord < l[j].ord })
+	if len(l) > 3 {
+		l = l[:3]
 	}
-	f := make([]c46aVhostCase, len(idx))
-	d := make([]string, len(idx))
-	for i, j := range idx {
-		f[i], d[i] = st.fails[j], st.failDesc[j]
-	}
-	st.fails, st.failDesc = f, d
+	return l
 }
 
 type c46aVhostStats struct {
-	evals, nontriv            int64
-	ambiguous, tookCS, tookCI int64
-	nfail                     int64
-	outcomes                  map[string]int64
-	fails                     []c46aVhostCase
-	failDesc                  []string
+	evals, nontriv, typeBeatsLen, none, single int64
+	nfail                                      [4]int64
+	fails                                      [4][]c46aVhostFail
 }
 
 func c46aVhost(r *vk.Run) {
 	const P = c46aP
-	authorities := []string{"a.b", "x.a.b", "a.b.c", "ab", ""}
-	domains := []string{"a.b", "*.a.b", "*.b", "a.*", "a.b.*", "*", "A.B"}
+	// One authority (a.b.c) is matched by ALL four pattern types with patterns
+	// of different lengths, including suffix/prefix patterns longer than the
+	// exact one; the others are matched by subsets; x.* / *.x match nothing and
+	// A.B.C matches only under a case-insensitive reading.
+	authorities := []string{"a.b.c", "A.B.C", "a.b", "x.a.b.c"}
+	domains := []string{"a.b.c", "a.b", "*.c", "*.b.c", "*a.b.c", "a.*", "a.b.*", "a.b.c*", "*", "x.*", "*.x", "A.B.C"}
 	if r.Thorough() {
-		authorities = append(authorities, "A.B", "x.y.a.b")
-		domains = append(domains, "x.a.b", "*b", "*.y.a.b")
+		authorities = append(authorities, "", "a.b.c.d")
+		domains = append(domains, "*c", "a*", "*.a.b.c")
 	}
-	// domain lists per vhost: 0, 1 or 2 domains (ordered)
-	lists := [][]string{{}}
-	for _, d := range domains {
-		lists = append(lists, []string{d})
+	nd := len(domains)
+	// match table per reading
+	var tab [4][][]int8
+	for ri, rd := range c46aReadings {
+		tab[ri] = make([][]int8, len(authorities))
+		for ai, a := range authorities {
+			tab[ri][ai] = make([]int8, nd)
+			for di, d := range domains {
+				if rank, ok := c46aDomainMatch(d, a, rd); ok {
+					tab[ri][ai][di] = int8(rank)
+				}
+			}
+		}
 	}
-	for _, d := range domains {
-		for _, e := range domains {
-			lists = append(lists, []string{d, e})
+	// ordered domain lists per vhost: 1 or 2 domains
+	var lists [][]int
+	for d := 0; d < nd; d++ {
+		lists = append(lists, []int{d})
+	}
+	for d := 0; d < nd; d++ {
+		for e := 0; e < nd; e++ {
+			lists = append(lists, []int{d, e})
 		}
 	}
 	nl := len(lists)
+	listStr := make([][]string, nl)
+	for i, l := range lists {
+		for _, d := range l {
+			listStr[i] = append(listStr[i], domains[d])
+		}
+	}
 	// distinct VirtualHost objects per position so that the returned pointer
 	// identifies the position
 	objs := make([][]*VirtualHost, 3)
 	for p := 0; p < 3; p++ {
 		objs[p] = make([]*VirtualHost, nl)
-		for i, l := range lists {
-			objs[p][i] = &VirtualHost{Domains: l}
+		for i := range lists {
+			objs[p][i] = &VirtualHost{Domains: listStr[i]}
 		}
 	}
-	// work items: first index a in [0,nl) plus the special item -1 for the
-	// configs with 0 and 1 vhosts... simpler: enumerate (n, a, b, c).
 	type item struct{ n, a int }
 	var items []item
-	items = append(items, item{0, 0})
 	for a := 0; a < nl; a++ {
 		items = append(items, item{1, a}, item{2, a}, item{3, a})
 	}
 	var mu sync.Mutex
-	total := c46aVhostStats{outcomes: map[string]int64{}}
+	var total c46aVhostStats
 	var wg sync.WaitGroup
 	var next int
 	var nmu sync.Mutex
@@ -207,62 +267,69 @@ func c46aVhost(r *vk.Run) {
 		wg.Add(1)
 		go func() {
 			defer wg.Done()
-			st := c46aVhostStats{outcomes: map[string]int64{}}
-			var octr [8]int64
+			var st c46aVhostStats
+			ob := make([]*VirtualHost, 0, 3)
 			check := func(idx []int) {
-				vhs := make([][]string, len(idx))
-				ob := make([]*VirtualHost, len(idx))
+				ob = ob[:0]
+				size := 0
 				for p, i := range idx {
-					vhs[p] = lists[i]
-					ob[p] = objs[p][i]
+					ob = append(ob, objs[p][i])
+					size += 1 + len(lists[i])
 				}
-				for _, host := range authorities {
-					cs := c46aRefBest(host, vhs, false)
-					ci := c46aRefBest(host, vhs, true)
+				for ai, host := range authorities {
 					got := c46aVhostEval(host, ob)
 					st.evals++
-					// non-trivial: at least two (vhost, domain) candidates match
-					nm := 0
-					for _, doms := range vhs {
-						for _, d := range doms {
-							if _, ok := c46aDomainMatch(d, host, false); ok {
-								nm++
+					for ri := 0; ri < 4; ri++ {
+						var win c46aCand
+						have := false
+						n, order := 0, 0
+						var maxLen [5]int
+						for p, li := range idx {
+							for _, di := range lists[li] {
+								if rk := int(tab[ri][ai][di]); rk > 0 {
+									c := c46aCand{rk, len(domains[di]), order, p}
+									n++
+									if c.plen > maxLen[rk] {
+										maxLen[rk] = c.plen
+									}
+									if !have || c46aPreferred(c, win) {
+										win, have = c, true
+									}
+								}
+								order++
 							}
 						}
-					}
-					if nm >= 2 {
-						st.nontriv++
-					}
-					if cs != ci {
-						st.ambiguous++
-						if got == cs {
-							st.tookCS++
-						} else if got == ci {
-							st.tookCI++
+						ref := -1
+						if have {
+							ref = win.vh
 						}
-					}
-					switch {
-					case got == cs && cs == -1:
-						octr[0]++
-					case got == cs && nm >= 2:
-						octr[1]++
-					case got == cs:
-						octr[2]++
-					case got == ci:
-						octr[3]++
-					}
-					if got != cs && got != ci {
-						octr[4]++
-						// keep the 3 smallest failing configurations (deterministic
-						// whatever the goroutine interleaving)
-						size := 0
-						for _, v := range vhs {
-							size += 1 + len(v)
+						if ri == 0 {
+							switch {
+							case n == 0:
+								st.none++
+							case n == 1:
+								st.single++
+							default:
+								st.nontriv++
+							}
+							for rk := 1; have && rk < win.rank; rk++ {
+								if maxLen[rk] > win.plen {
+									st.typeBeatsLen++
+									break
+								}
+							}
 						}
-						if len(st.fails) < 3 || size <= c46aVhostSize(st.fails[len(st.fails)-1]) {
-							st.fails = append(st.fails, c46aVhostCase{Kind: "vhost", Authority: host, VHosts: vhs})
-							st.failDesc = append(st.failDesc, fmt.Sprintf("got vhost #%d, reference (case-sensitive) #%d, (ASCII-case-insensitive) #%d", got, cs, ci))
-							c46aVhostTrim(&st)
+						if got != ref {
+							st.nfail[ri]++
+							fl := st.fails[ri]
+							if len(fl) < 3 || size <= fl[len(fl)-1].size {
+								vhs := make([][]string, len(idx))
+								for p, i := range idx {
+									vhs[p] = listStr[i]
+								}
+								c := c46aVhostCase{Kind: "vhost", Authority: host, VHosts: vhs, Reading: ri}
+								st.fails[ri] = c46aVhostKeep(fl, c46aVhostFail{c, fmt.Sprintf("got vhost #%d, reference #%d", got, ref), size, fmt.Sprintf("%03d|%q|%q", size, host, vhs)})
+							}
 						}
 					}
 				}
@@ -277,8 +344,6 @@ func c46aVhost(r *vk.Run) {
 				}
 				it := items[i]
 				switch it.n {
-				case 0:
-					check(nil)
 				case 1:
 					check([]int{it.a})
 				case 2:
@@ -293,21 +358,18 @@ func c46aVhost(r *vk.Run) {
 					}
 				}
 			}
-			names := []string{"vhost: none matches", "vhost: best of >=2 matching domains", "vhost: single matching domain", "vhost: case-insensitive reading taken", "vhost: MISMATCH"}
 			mu.Lock()
 			total.evals += st.evals
 			total.nontriv += st.nontriv
-			total.ambiguous += st.ambiguous
-			total.tookCS += st.tookCS
-			total.tookCI += st.tookCI
-			for i, n := range names {
-				if octr[i] > 0 {
-					total.outcomes[n] += octr[i]
+			total.typeBeatsLen += st.typeBeatsLen
+			total.none += st.none
+			total.single += st.single
+			for ri := 0; ri < 4; ri++ {
+				total.nfail[ri] += st.nfail[ri]
+				for _, f := range st.fails[ri] {
+					total.fails[ri] = c46aVhostKeep(total.fails[ri], f)
 				}
 			}
-			total.fails = append(total.fails, st.fails...)
-			total.failDesc = append(total.failDesc, st.failDesc...)
-			total.nfail += octr[4]
 			mu.Unlock()
 		}()
 	}
@@ -315,35 +377,45 @@ func c46aVhost(r *vk.Run) {
 	r.Eval(P, total.evals)
 	r.NontrivialN(P, total.nontriv)
 	r.Set(P, "vhost_evaluations", total.evals)
-	r.Set(P, "vhost_domain_lists_per_vhost", nl)
-	r.Set(P, "vhost_cases_where_case_readings_differ", total.ambiguous)
-	r.Set(P, "vhost_case_sensitive_reading_taken", total.tookCS)
-	r.Set(P, "vhost_case_insensitive_reading_taken", total.tookCI)
-	for k := range total.outcomes {
-		r.Outcome(P, k)
+	r.Set(P, "vhost_domain_alphabet", domains)
+	r.Set(P, "vhost_authorities", authorities)
+	r.Set(P, "vhost_ordered_domain_lists_per_vhost", nl)
+	r.Set(P, "vhost_cases_with_2_or_more_matching_domains", total.nontriv)
+	r.Set(P, "vhost_cases_where_type_beats_a_longer_pattern", total.typeBeatsLen)
+	r.Outcome(P, "vhost: evaluated")
+	if total.none > 0 {
+		r.Outcome(P, "vhost: none matches")
 	}
-	r.Set(P, "vhost_outcome_counts", total.outcomes)
-	if total.tookCS > 0 && total.tookCI > 0 {
-		r.Violation(P, "vhost-domain-case-handling-inconsistent", fmt.Sprintf("where case-sensitive and case-insensitive domain matching differ the code took the case-sensitive answer %d times and the case-insensitive one %d times", total.tookCS, total.tookCI), nil)
+	if total.single > 0 {
+		r.Outcome(P, "vhost: single matching domain")
 	}
-	// report the smallest failing configurations (deterministic order)
-	type fd struct {
-		c c46aVhostCase
-		d string
-		k string
+	if total.nontriv > 0 {
+		r.Outcome(P, "vhost: best of >=2 matching domains")
 	}
-	var fds []fd
-	for i, c := range total.fails {
-		fds = append(fds, fd{c, total.failDesc[i], c46aVhostOrd(c)})
+	if total.typeBeatsLen > 0 {
+		r.Outcome(P, "vhost: better type wins over a longer pattern of a worse type")
 	}
-	sort.Slice(fds, func(i, j int) bool { return fds[i].k < fds[j].k })
-	for i, f := range fds {
-		if i >= 3 {
-			break
+	// the reading that explains the real code best (0 failures = holds)
+	bestR := 0
+	for ri := 1; ri < 4; ri++ {
+		if total.nfail[ri] < total.nfail[bestR] {
+			bestR = ri
 		}
-		r.Violation(P, fmt.Sprintf("vhost authority=%q domains=%q", f.c.Authority, f.c.VHosts), fmt.Sprintf("FindBestMatchingVirtualHost(%q, %q): %s (%d failing configurations in total)", f.c.Authority, f.c.VHosts, f.d, total.nfail), f.c)
 	}
-	r.Sample(P, map[string]any{"authority": "x.a.b", "vhosts": [][]string{{"*.b"}, {"*", "*.a.b"}, {"*.a.b"}}, "expected_vhost": 1, "why": "suffix beats universal, longer suffix first, first listed on the full tie"})
+	fr := map[string]int64{}
+	for ri, rd := range c46aReadings {
+		fr[rd.String()] = total.nfail[ri]
+	}
+	r.Set(P, "vhost_mismatches_per_reading", fr)
+	r.Set(P, "vhost_reading_judged", c46aReadings[bestR].String())
+	if total.nfail[bestR] > 0 {
+		for _, f := range total.fails[bestR] {
+			r.Violation(P, fmt.Sprintf("vhost authority=%q domains=%q", f.c.Authority, f.c.VHosts),
+				fmt.Sprintf("FindBestMatchingVirtualHost(%q, %q): %s. No reading of the open points explains the code; under the closest one (%s) %d configurations fail (mismatches per reading: %v)", f.c.Authority, f.c.VHosts, f.desc, c46aReadings[bestR], total.nfail[bestR], fr), f.c)
+		}
+	}
+	r.Sample(P, map[string]any{"authority": "a.b.c", "vhosts": [][]string{{"*.c"}, {"a.b.*", "*"}, {"*.c"}}, "expected_vhost": 0, "why": "suffix beats the longer prefix pattern and the universe; first listed on the full tie"})
+	r.Sample(P, map[string]any{"authority": "a.b.c", "vhosts": [][]string{{"a.*", "*.c"}, {"*.b.c"}}, "expected_vhost": 1, "why": "longer suffix first within the type"})
 }
 
 // ---------------------------------------------------------------- (B) fraction
@@ -759,7 +831,7 @@ func TestVerif_C46_XDSResource(t *testing.T) {
 	const P = c46aP
 	r := vk.Start(t, "c46a_xdsresource", "exploration", P)
 	defer r.Finish()
-	r.Rule(P, "(A) every authority of {a.b,x.a.b,a.b.c,ab,\"\"} x every list of <=3 virtual hosts each with 0..2 ordered domains over {a.b,*.a.b,*.b,a.*,a.b.*,*,A.B} (thorough: 2 more authorities, 3 more domains), oracle = brute-force best of all matching (vhost,domain) by (exact>suffix>prefix>universal, longer pattern, first listed); a case where case-sensitive and ASCII-case-insensitive domain comparison differ accepts either; non-trivial = >=2 matching domains. (B) runtime fractions {0,1,500000,999999,1000000 per million, 0/100, 1/10000, 50/100} each driven through ALL 10^6 values of RandInt64n, oracle = exactly f matching draws; non-trivial = draws of fractions strictly between 0 and 10^6. (C) 11 path matchers x 13 header-matcher lists x 6 fractions built from route protos by routesProtoToSlice+RouteToMatcher x 4 methods x 9 metadata maps x 8 draws, oracle = reference path AND reference headers AND verdict of the real fraction matcher alone on the same draw; non-trivial = path and headers hold so that the fraction decides")
+	r.Rule(P, "(A) every authority of {a.b.c, A.B.C, a.b, x.a.b.c} x every ORDERED list of 1..3 virtual hosts each with an ORDERED list of 1..2 domains over the 12-pattern alphabet {exact a.b.c, a.b, A.B.C; suffix *.c, *.b.c, *a.b.c, *.x; prefix a.*, a.b.*, a.b.c*, x.*; universe *} (authority a.b.c is matched by all four types with patterns of lengths 1,3,5,6, others by subsets, x.* and *.x by none; thorough: 2 more authorities, 3 more patterns): 156+156^2+156^3 lists x 4 authorities; oracle = most preferred of ALL matching (vhost,domain) pairs under 'exact > suffix > prefix > universe, longer pattern first within a type, first listed on a full tie'; the two points the sentence leaves open (case sensitivity of domains, whether '*' may be empty) are fixed by ONE reading for the whole run: the code must agree with the reference on every case under at least one of the 4 readings; non-trivial = >=2 matching (vhost,domain) pairs (case-sensitive, '*' may be empty); also counted: cases where the winner is shorter than a matching pattern of a worse type. (B) runtime fractions {0,1,500000,999999,1000000 per million, 0/100, 1/10000, 50/100} each driven through ALL 10^6 values of RandInt64n, oracle = exactly f matching draws; non-trivial = draws of fractions strictly between 0 and 10^6. (C) 11 path matchers x 13 header-matcher lists x 6 fractions built from route protos by routesProtoToSlice+RouteToMatcher x 4 methods x 9 metadata maps x 8 draws, oracle = reference path AND reference headers AND verdict of the real fraction matcher alone on the same draw; non-trivial = path and headers hold so that the fraction decides")
 
 	if f := r.ReplayFile(); f != "" {
 		var k struct {
@@ -778,10 +850,16 @@ func TestVerif_C46_XDSResource(t *testing.T) {
 			for i, d := range c.VHosts {
 				ob[i] = &VirtualHost{Domains: d}
 			}
-			got, cs, ci := c46aVhostEval(c.Authority, ob), c46aRefBest(c.Authority, c.VHosts, false), c46aRefBest(c.Authority, c.VHosts, true)
-			fmt.Printf("replay: vhost got #%d reference #%d (case-insensitive #%d)\n", got, cs, ci)
-			if got != cs && got != ci {
-				r.Violation(P, "replay", fmt.Sprintf("got #%d want #%d", got, cs), c)
+			got := c46aVhostEval(c.Authority, ob)
+			if c.Reading < 0 || c.Reading > 3 {
+				c.Reading = 0
+			}
+			for ri, rd := range c46aReadings {
+				ref, n, _ := c46aRefBest(c.Authority, c.VHosts, rd)
+				fmt.Printf("replay: vhost got #%d; reference #%d of %d matching domains under reading %d (%s)\n", got, ref, n, ri, rd)
+			}
+			if ref, _, _ := c46aRefBest(c.Authority, c.VHosts, c46aReadings[c.Reading]); got != ref {
+				r.Violation(P, "replay", fmt.Sprintf("got #%d want #%d", got, ref), c)
 			}
 		case "fraction":
 			var c c46aFracCase
@@ -817,5 +895,5 @@ func TestVerif_C46_XDSResource(t *testing.T) {
 	c46aVhost(r)
 	c46aFractions(r)
 	c46aComposite(r)
-	r.Assume(P, "xdsresource leg: RandInt64n is the only random source of the fraction matcher and math/rand/v2.Int64N(10^6) is uniform (trusted). Domain patterns are compared case-sensitively OR ASCII-case-insensitively (the sentence does not say; either is accepted, consistently). Invalid domains (empty, '*' in the middle) are outside the grammar. In (C) the fraction verdict for a draw is taken from the real fraction matcher (whose count is judged in (B)), so (C) judges the conjunction only.")
+	r.Assume(P, "xdsresource leg: RandInt64n is the only random source of the fraction matcher and math/rand/v2.Int64N(10^6) is uniform (trusted). The sentence does not say whether domains compare case-sensitively or whether '*' may stand for the empty string: the code must agree with the reference on EVERY case under one single reading of these two points (4 readings tried; mismatch counts per reading are in the evidence). Invalid domains (empty, '*' in the middle) are outside the grammar. In (C) the fraction verdict for a draw is taken from the real fraction matcher (whose count is judged in (B)), so (C) judges the conjunction only.")
 }
